@@ -353,6 +353,20 @@ var pureItems = []pureItem{
 			"f, err := s.source.Open(path)":                   {"", nil, nil},
 			"checksum, err = rsyncchecksum.ReaderChecksum(f)": {"let checksum : List UInt8 := fileSum;", []string{"checksum"}, nil}},
 		results: []string{"fec"}},
+	// sender.go sendFile: the whole-file path — the file is read in pieces of whatever size Read returns (a schedule of
+	// short reads is a parameter) and every piece leaves as one literal token; then the end-of-data token
+	{name: "sendFileLoop", file: "internal/sender/sender.go", fn: "sendFile",
+		from: "offset := 0", to: "if err := st.Conn.WriteInt32(0)",
+		params: []pvar{{"rest", "[]byte"}, {"sched", "[]int"}, {"out", "[]out"}},
+		fuel:   []string{"rest.length + 1"},
+		drop:   []string{"if st.Opts.InfoGTE(rsyncopts.INFO_PROGRESS, 1)"},
+		replace: map[string]repl{
+			"n, err := f.Read(buf)":                           {"Go.bind (Go.readSome rest sched buf) fun (n, buf, rest, sched, eof) =>", []string{"buf", "rest", "sched"}, []pvar{{"n", "int"}, {"eof", "bool"}}},
+			"if err != nil~io.EOF":                            {"if eof then Go.Res.ok ($LOOP, false) else", nil, nil},
+			"if err := st.Conn.WriteInt32(int32(len(chunk)))": {"let out := out ++ [Go.Out.i32 (Int32.ofInt (chunk.length : Int))];", []string{"out"}, nil},
+			"n, err = st.Conn.Writer.Write(chunk)":            {"let out := out ++ [Go.Out.bytes chunk];\nlet n : Int := (chunk.length : Int);", []string{"out", "n"}, nil},
+			"if err := st.Conn.WriteInt32(0)":                 {"let out := out ++ [Go.Out.i32 0];", []string{"out"}, nil}},
+		results: []string{"out", "rest"}},
 	// wire: multiplex frame header, and its decoding
 	{name: "muxHeader", file: "internal/rsyncwire/wire.go", fn: "WriteMsg",
 		from: "header := uint32(mplexBase+tag)<<24 | uint32(len(p))", to: "header := uint32(mplexBase+tag)<<24 | uint32(len(p))",
@@ -401,7 +415,7 @@ func pureIdent(s string) string {
 var leanTypes = map[string]string{
 	"uint8": "UInt8", "byte": "UInt8", "uint16": "UInt16", "uint32": "UInt32", "uint64": "UInt64",
 	"int8": "Int8", "int16": "Int16", "int32": "Int32", "int": "Int", "int64": "Int",
-	"bool": "Bool", "[]byte": "List UInt8", "[]out": "List Go.Out", "[]file": "List Go.FileRec",
+	"bool": "Bool", "[]byte": "List UInt8", "[]out": "List Go.Out", "[]file": "List Go.FileRec", "[]int": "List Nat",
 }
 
 func isFixed(t string) bool {
@@ -941,7 +955,7 @@ func (p *ptr) containsReturn(n ast.Node) bool {
 				return false
 			}
 			for k := range p.it.replace {
-				if strings.HasPrefix(p.r.src(st), k) {
+				if replMatches(p.r.src(st), k) {
 					return false
 				}
 			}
@@ -1001,7 +1015,7 @@ func (p *ptr) assigned(stmts []ast.Stmt, declared map[string]bool, out *[]string
 		}
 		replaced := false
 		for k, rep := range p.it.replace {
-			if strings.HasPrefix(p.r.src(s), k) {
+			if replMatches(p.r.src(s), k) {
 				for _, a := range rep.assigns {
 					add(a)
 				}
@@ -1178,8 +1192,8 @@ func (p *ptr) stmts(list []ast.Stmt, k func() string, w *strings.Builder) {
 		return
 	}
 	for key, rep := range p.it.replace {
-		if strings.HasPrefix(p.r.src(s), key) {
-			w.WriteString(rep.lean + "\n")
+		if replMatches(p.r.src(s), key) {
+			w.WriteString(strings.ReplaceAll(rep.lean, "$LOOP", p.loopTup) + "\n")
 			for _, d := range rep.declares {
 				p.env[d.name] = d.typ
 			}
@@ -1581,8 +1595,11 @@ func (p *ptr) forStmt(v *ast.ForStmt, rest []ast.Stmt, k func() string, w *strin
 	bad := p.containsReturn(v.Body)
 	ast.Inspect(v.Body, func(n ast.Node) bool {
 		if st, ok := n.(ast.Stmt); ok {
-			for k := range p.it.replace {
-				if strings.HasPrefix(p.r.src(st), k) {
+			for k, rep := range p.it.replace {
+				if replMatches(p.r.src(st), k) {
+					if strings.Contains(rep.lean, "$LOOP") {
+						bad = true // the spliced text leaves the loop
+					}
 					return false
 				}
 			}
@@ -1773,6 +1790,15 @@ func needsMonad(n ast.Node, p *ptr) bool {
 }
 
 // a pattern starting with "~" matches anywhere in the statement's text, otherwise at its start
+// replMatches: a replacement key is a source-text prefix of the statement; "PREFIX~TEXT" additionally requires TEXT
+// to occur in the statement (to tell apart statements that begin alike)
+func replMatches(text, key string) bool {
+	if i := strings.Index(key, "~"); i > 0 {
+		return strings.HasPrefix(text, key[:i]) && strings.Contains(text, key[i+1:])
+	}
+	return strings.HasPrefix(text, key)
+}
+
 func stmtMatches(text, pat string) bool {
 	if strings.HasPrefix(pat, "~") {
 		return strings.Contains(text, pat[1:])
